@@ -8,7 +8,7 @@ from multiprocessing import Pool
 from harness import common as C
 
 PROP = "C09"
-COQ_TARGETS = ["Props/C09.vo", "Extract/ExtractC09.vo"]
+COQ_TARGETS = ["Props/C09.vo", "Extract/ExtractC09.vo"]   # Props/C09 pulls in Proofs/DupsProofs (C04 lemmas)
 
 # Which code the tree under test is.  Mirrored by current_fx / current_fs in coq/Model/DefStore.v
 # (translate() fails closed when they differ).
@@ -29,16 +29,19 @@ TRUSTED = [
     "counts, str, _expandable/_expanded flags, parent pointers, def issue codes after every op)",
     "the abstract forest handed to the model is read off the implementation's own parse (HedString children, "
     "short_base_tag, extension, org_tag, takesValue/unique/required of the schema entry); parsing is C02's subject",
-    "the interleaving theorem is proved on the ownership-tree layer; that the heap layer (pointer surgery, deepcopy as "
-    "an isomorphic copy) computes the same is kernel-checked on a finite family and otherwise tested (both layers run "
-    "in the driver on every case)",
+    "the interleaving theorem is proved on the ownership-tree layer; BOTH layers are run in the driver on every case and "
+    "each is compared with the implementation after every op (text, _expandable/_expanded flags, exceptions), so the "
+    "theorem's model is tied to the code directly; heap layer = ownership-tree layer is proved in general for copy "
+    "(C09_copy_abs) and kernel-evaluated on an enumerated family for expand/shrink (C09_layers_agree_family), not proved "
+    "in general",
     "str.casefold() is modelled on ASCII only (generated definition names are ASCII)",
 ]
 ASSUMPTIONS = [
     "full HedValidator.validate() is exercised on the implementation only (oracle); the model covers "
     "validate_def_tags / _validate_def_contents",
-    "Def-expand validation: 'accepted => equal up to sibling order' is proved for all inputs; the converse is proved "
-    "for all 24 spellings of one nested definition and otherwise tested (shuffled / as-defined / tag-last variants)",
+    "C09_defexpand_valid_iff assumes tag texts non-empty and free of ',', '(' and ')' (wfl); the harness checks this "
+    "of every parsed annotation (C02's tokenizer guarantees it); it reuses the C04 lemmas ckey_inj / sort_k_sorted / "
+    "sorted_perm_unique",
     "deepcopy is modelled as copying every object (a superset of what is reachable); _original_children, spans and "
     "the DataFrame branch of df_util.shrink_defs (a no-op under pandas 3 copy-on-write) are not modelled",
     "interleaving / refinement theorems assume wf_dict (no Def/Def-expand/Definition inside stored contents, a "
@@ -278,11 +281,14 @@ def impl_one_inner(case):
         r["dict"] = dict_snapshot(dd)
         hs = HedString(case["ann"], S, dd)
         r["forest"] = node_sx(hs.children)
+        # hypothesis wfl of C09_defexpand_valid_iff: tag texts are non-empty and free of ',', '(' and ')'
+        r["wf_text"] = all(str(t) and not any(c in str(t) for c in ",()") for t in hs.get_all_tags())
         dv = DefValidator(dd)
     except Exception as e:  # noqa
         r["exn"] = "setup:" + type(e).__name__ + ":" + str(e)[:100]
         return r
-    originals = []
+    saved = []                 # objects the working one was copied from, most recent first
+    texts = {}                 # id(object) -> text it had when last worked on
 
     def observe(op):
         st = {"op": op}
@@ -307,8 +313,13 @@ def impl_one_inner(case):
             elif op == "S":
                 hs.shrink_defs()
             elif op == "C":
-                originals.append((hs, str(hs)))
+                texts[id(hs)] = str(hs)
+                saved.insert(0, hs)
                 hs = hs.copy()
+            elif op == "O":
+                if saved:
+                    texts[id(hs)] = str(hs)
+                    hs, saved[0] = saved[0], hs
             elif op == "V":
                 before = str(hs)
                 full = [i["code"] for i in hs.validate()]
@@ -319,14 +330,14 @@ def impl_one_inner(case):
         st = observe(op)
         if op == "V":
             st.update(st_extra)
+        # copies are independent objects: every other live object still prints as it did
+        try:
+            st["others_intact"] = all(str(o) == texts[id(o)] for o in saved)
+        except RecursionError:
+            st["others_intact"] = False
         r["steps"].append(st)
         if "exn" in st or st["cyclic"]:
             break
-    # copies are independent objects: the originals still print as they did
-    try:
-        r["originals_intact"] = all(str(o) == t for o, t in originals)
-    except RecursionError:
-        r["originals_intact"] = False
     return r
 
 
@@ -620,9 +631,16 @@ def gen_ann(rng, good, depth=3, with_de=None, malformed=False):
     return f, info
 
 
+# E,S,copy,E(copy) / E,copy,S(copy),E(copy),S(orig) / both objects worked on alternately
+INTERLEAVINGS = ["ESCE", "ECSEOS", "ESCEOE", "ECSEOSE", "CEOEOS", "ECOSOE", "ESCEVOEV", "CEOSE", "ECSOS",
+                 "ECVSEOVS", "ESCESOES"]
+
+
 def gen_ops(rng, maxlen=6):
     n = rng.randint(0, maxlen)
-    return "".join(rng.choices("ESCV", weights=[40, 30, 15, 15], k=n))
+    if rng.random() < 0.25:      # interleavings of a copy and its source
+        return rng.choice(INTERLEAVINGS)
+    return "".join(rng.choices("ESCVO", weights=[38, 28, 14, 10, 10], k=n))
 
 
 def gen_case(rng, malformed=False):
@@ -642,7 +660,7 @@ def de_case(rng, variant):
             break
     g, info = written_defexpand(rng, good, variant)
     return {"defs": [d["text"] for d in defs], "meta": defs, "good": good, "ann": txt(g), "ann_struct": [g],
-            "de_info": [info], "ops": rng.choice(["V", "", "VS", "S", "ES", "SE"]), "kind": "defexpand", "single_de": info}
+            "de_info": [info], "ops": rng.choice(["V", "", "VS", "S", "ES", "SE", "EV", "E", "VEV", "ECV", "EVCOV"]), "kind": "defexpand", "single_de": info}
 
 
 def fixed_case(defs, ann, ops, kind="corpus"):
@@ -677,6 +695,11 @@ def corpus():
         fixed_case(d2, "Def/MyDef,(Def/Pq/3,Green)", "CESCES"),
         fixed_case(d2, "(Def-expand/MyDef,Def-expand/B,(Blue,Red))", "S", "two-de-tags"),
         fixed_case(d2 + ["(Definition/mydef,(Green))"], "Def/MyDef", "ES"),
+        fixed_case(d2, "Def/MyDef,(Def/Pq/3,Green)", "ESCE", "copy-interleaving"),
+        fixed_case(d2, "Def/MyDef,(Def/Pq/3,Green)", "ECSEOS", "copy-interleaving"),
+        fixed_case(d2, "Def/MyDef,(Def/Pq/3,Green)", "ECSEOSEV", "copy-interleaving"),
+        fixed_case(d2, "(Def-expand/MyDef,(Red,Green)),Def/MyDef", "EV", "mismatch-then-expand"),
+        fixed_case(d2, "(Def-expand/Pq/3,(Label/4,(Distance/3 m,Green))),Def/B", "VEVSV", "mismatch-then-expand"),
     ]
     w = fixed_case(d1, "(Def-expand/MyDef,(Red,Blue))", "V", "F2-witness")
     w["single_de"] = {"variant": "as_defined", "equal": True, "in_stored_order": False, "name": "MyDef", "value": ""}
@@ -736,14 +759,28 @@ def oracle(case, r, res):
                     res.report("definition-content", cc, f"{k}: stored={row} declared={m['text']!r}")
     # ---- op sequence laws
     steps = r["steps"]
-    if not r.get("originals_intact", True):
-        res.report("copy-independent", cc, "an object changed after operations on its copy")
+    for k, st in enumerate(steps):
+        if not st.get("others_intact", True):
+            res.report("copy-independent", cc,
+                       f"after ops {case['ops'][:k]!r} another live object (copy source / copy) changed its text")
+            break
+    # validation looks at the annotation only: equal text => equal Def/Def-expand verdict, whatever the history
+    by_text = {}
+    for k, st in enumerate(steps):
+        if "str" in st and "codes" in st:
+            first = by_text.setdefault(st["str"], (k, st["codes"]))
+            if first[1] != st["codes"]:
+                res.report("validate-depends-on-text-only", cc,
+                           f"{st['str']!r}: codes {first[1]} after ops {case['ops'][:first[0]]!r} but "
+                           f"{st['codes']} after ops {case['ops'][:k]!r}")
+                break
     if shadowed:
         return
     seen_e = False        # an expand_defs happened on this object lineage
     e_then_s = False      # ... followed later by a shrink_defs
     e_since_s = False     # ... with no shrink_defs since
     base_text = None      # text before the last expand when it held no Def-expand
+    others = []           # the same bookkeeping for the saved objects
     written = has_defexpand(case["ann_struct"])
     for k in range(1, len(steps)):
         prev, st = steps[k - 1], steps[k]
@@ -751,6 +788,22 @@ def oracle(case, r, res):
         if "str" not in prev:
             break
         before = parse_struct(prev["str"])
+        if op == "C":
+            others.insert(0, (seen_e, e_then_s, e_since_s, base_text, prev["str"]))
+        if op == "O":
+            if "exn" in st:
+                res.report("copy-validate-never-raise", cc, f"{op}: {st['exn']}")
+                return
+            if others:
+                mine = (seen_e, e_then_s, e_since_s, base_text, prev["str"])
+                seen_e, e_then_s, e_since_s, base_text, want_text = others[0]
+                others[0] = mine
+                if st["str"] != want_text:
+                    res.report("copy-independent", cc, f"after ops {case['ops'][:k]!r}: the other object prints "
+                                                       f"{st['str']!r}, it was left as {want_text!r}")
+            elif st["str"] != prev["str"]:
+                res.report("copy-validate-keep-text", cc, f"{op}: {prev['str']!r} -> {st['str']!r}")
+            continue
         if op == "E":
             want = py_expand(good, before)
             if "exn" in st:
@@ -797,6 +850,10 @@ def oracle(case, r, res):
     # ---- Def-expand accepted iff content equals the expansion up to sibling order
     info = case.get("single_de")
     if info and steps and "codes" in steps[0]:
+        same = [s for s in steps if s.get("str") == steps[0]["str"] and isinstance(s.get("codes"), list)]
+        verdicts = {"DEF_EXPAND_INVALID" not in s["codes"] for s in same}
+        if len(verdicts) > 1:
+            res.report("validate-depends-on-text-only", cc, f"{case['ann']!r}: verdict changes along {case['ops']!r}")
         accepted = "DEF_EXPAND_INVALID" not in steps[0]["codes"]
         full = next((s["full"] for s in steps if s.get("op") == "V" and "full" in s), None)
         if full is not None and case["ops"].startswith("V") and (info.get("value", "") or "0").isdigit():
@@ -847,6 +904,8 @@ def compare(case, r, m):
     wf, counts, dct = m[1]
     if wf != "1":
         diffs.append("model dictionary is not wf_dict")
+    if not r.get("wf_text", True):
+        diffs.append("a parsed tag text is empty or holds ',', '(' or ')' (hypothesis wfl of C09_defexpand_valid_iff)")
     if [int(c) for c in counts] != [d["n"] for d in r["defs"]]:
         diffs.append(f"definition issue counts impl={[d['n'] for d in r['defs']]} model={counts}")
     md = [[sx_s(k), sx_s(n), t == "1", None if c == "None" else sx_s(c)] for k, n, t, c in dct]
